@@ -695,7 +695,6 @@ func c09Child(t *testing.T, spec string) {
 	fmt.Fprintf(logf, "DONE %d\n", start+count)
 }
 
-
 // c09Storm (child process, real time): replies and acks for queries - running ones, finished
 // ones, ones that never existed - arrive from the network on several goroutines (memberlist
 // hands every packet and stream to NotifyMsg on a goroutine of its own) while the node's own
